@@ -32,6 +32,15 @@ var reg = vk.Registry{
 		}
 		return gen.RoundTrip(gen.ByID(s.ID()), v)
 	},
+	"rawid": func(raw json.RawMessage) *vk.Violation {
+		var c gen.PCase
+		_ = json.Unmarshal(raw, &c)
+		s, v := ref.FromJ(c.Vals)
+		if s == nil {
+			return vk.Violf("", c, "unknown spec %s", c.Vals.Spec)
+		}
+		return gen.LayoutEncodeRawID(gen.ByID(s.ID()), v)
+	},
 	"overlong": func(raw json.RawMessage) *vk.Violation {
 		var c gen.PCase
 		_ = json.Unmarshal(raw, &c)
@@ -124,6 +133,10 @@ func TestRoundTripPerType(t *testing.T) {
 			classify(b, v)
 			rec.Sample(b.Spec.Proto, ref.ToJ(b.Spec, v))
 			rec.ReportSeq(t, "roundtrip", gen.PCase{Vals: ref.ToJ(b.Spec, v)}, func() *vk.Violation { return gen.RoundTrip(b, v) })
+			if gen.HasHexID(b.Spec) {
+				rec.Eval()
+				rec.Report(t, "rawid", gen.LayoutEncodeRawID(b, v))
+			}
 		}))
 	}
 }
